@@ -114,6 +114,9 @@ func (x *Exec) frameRegions() []region {
 				x.frame = append(x.frame, region{kind: "H", base: typeKey(h.base), lo: h.lo, hi: h.hi, text: m, any: true})
 				x.frame = append(x.frame, region{kind: "M", base: typeKey(h.base), lo: h.lo, hi: h.hi, text: m, any: true})
 			}
+		case strings.HasPrefix(m, "*") && x.ifaceParam(env, strings.TrimSpace(m[1:])) != nil:
+			// *v for an interface-typed parameter: whatever object the caller boxed into it
+			x.frame = append(x.frame, region{kind: "iface", obj: *x.ifaceParam(env, strings.TrimSpace(m[1:])), text: m})
 		default:
 			p, err := env.evalAddr(m)
 			if err != nil {
@@ -237,6 +240,17 @@ func (x *Exec) frameCall(st *State, ins ssa.Instruction, c *ssa.CallCommon, ctr 
 					ok = tFalse
 				}
 			}
+		case strings.HasPrefix(m, "*") && x.ifaceParam(env, strings.TrimSpace(m[1:])) != nil:
+			// the callee writes through an interface value of unknown content: fine if it is the very value
+			// this function may write through
+			it := x.ifaceParam(env, strings.TrimSpace(m[1:]))
+			var alts []Term
+			for _, r := range x.frameRegions() {
+				if r.kind == "iface" {
+					alts = append(alts, mkEq(*it, r.obj))
+				}
+			}
+			ok = mkOr(alts...)
 		case strings.HasPrefix(m, "*") && x.boxedSlice(env, strings.TrimSpace(m[1:])) != nil:
 			// *v where v is an interface value holding a slice: the slice's elements
 			bv := x.boxedSlice(env, strings.TrimSpace(m[1:]))
@@ -359,4 +373,18 @@ func (x *Exec) boxedSlice(env *Env, expr string) *Value {
 		return nil
 	}
 	return &bv
+}
+
+// ifaceParam returns the interface term of a specification expression that is an interface value with no
+// known content (typically an `interface{}` out-parameter).
+func (x *Exec) ifaceParam(env *Env, expr string) *Term {
+	v, err := env.evalString(expr)
+	if err != nil || v.T == nil || !isInterface(v.T) || len(v.L) != 1 {
+		return nil
+	}
+	if _, ok := env.st.boxed[v.L[0].S]; ok {
+		return nil
+	}
+	t := v.L[0]
+	return &t
 }
